@@ -601,7 +601,7 @@ class McPart(Part):
         m = ctx.base_mapping()
         for orig, new in mapping.items():
             m[os.path.relpath(orig, ctx.repo)] = new
-        for sub in ('', 'vtime', 'vsignal', 'vexec', 'vhttp'):
+        for sub in ('', 'vtime', 'vsignal', 'vexec', 'vhttp', 'vsync'):
             for f in glob.glob(os.path.join(VERIF, 'mc', sub, '*.go')):
                 if f.endswith('_test.go'):
                     continue
